@@ -94,6 +94,10 @@ func c02Run(c *c02Case, synth *rig.Synth, nextAction func() string, stats *c02St
 		if r1.Interrupt != r2.Interrupt || r1.PPC != r2.PPC || r1.PRK != r2.PRK || r1.B != r2.B {
 			return fmt.Errorf("action %d %s: pending interrupt / previous PC differ: cpu65c816 int=%d PPC=%02x:%04x, cpualt int=%d PPC=%02x:%04x", k, what, r1.Interrupt, r1.PRK, r1.PPC, r2.Interrupt, r2.PRK, r2.PPC)
 		}
+		if f1, f2 := m1.BusFault(), m2.BusFault(); f1 != f2 {
+			// (on a bus with several devices the two would talk to different devices)
+			return fmt.Errorf("action %d %s: the interpreters differ in how their bus accesses were delivered: cpu65c816 %q, cpualt %q", k, what, f1, f2)
+		}
 		if dm := rig.DiffMem(m1, m2, 4); len(dm) > 0 {
 			return fmt.Errorf("action %d %s: memories differ at $%06X (cpu65c816 %02x, cpualt %02x)", k, what, dm[0], m1.Peek(dm[0]), m2.Peek(dm[0]))
 		}
